@@ -68,7 +68,7 @@ func runC09(a *A) {
 			func(r map[string]int, _ map[string]bool) bool { return r["c"] >= r["N"] })
 		// the count is len(buffer after appending this row)
 		n := 0
-		allInstrs(g, func(in ssa.Instruction) {
+		scanHosts(a, g, func(in ssa.Instruction) {
 			mu, ok := in.(*ssa.MapUpdate)
 			if !ok || !isFieldOf(TermOf(mu.Map, nil), "window.CountingWindow", "keyedCount") {
 				return
@@ -101,6 +101,31 @@ func runC09(a *A) {
 		isThr := func(v ssa.Value) bool {
 			return v != nil && isFieldOf(TermOf(v, nil), "window.CountingWindow", "threshold")
 		}
+		// a batch handed back by a helper ((batch, fired) := cw.appendRow(row)): judged where it is made
+		var resolved []ssa.Value
+		for _, d := range delivered {
+			if ex, ok := d.(*ssa.Extract); ok {
+				if c, ok := ex.Tuple.(*ssa.Call); ok && c.Call.StaticCallee() != nil && c.Call.StaticCallee().Pkg == g.Pkg && c.Call.StaticCallee().Blocks != nil {
+					any := false
+					for _, b := range c.Call.StaticCallee().Blocks {
+						if ret, ok := b.Instrs[len(b.Instrs)-1].(*ssa.Return); ok && ex.Index < len(ret.Results) {
+							for _, l := range phiLeaves(ret.Results[ex.Index]) {
+								if isNilConst(l) {
+									continue // the "nothing to deliver" return
+								}
+								resolved = append(resolved, l)
+								any = true
+							}
+						}
+					}
+					if any {
+						continue
+					}
+				}
+			}
+			resolved = append(resolved, d)
+		}
+		delivered = resolved
 		for _, d := range delivered {
 			ms, ok := d.(*ssa.MakeSlice)
 			if !ok {
@@ -131,7 +156,7 @@ func runC09(a *A) {
 		}
 		// remainder: every store into keyedBuffer[key] inside the firing branch is a fresh slice; the non-empty one is copy(rem, buf[threshold:])
 		nrem := 0
-		allInstrs(g, func(in ssa.Instruction) {
+		scanHosts(a, g, func(in ssa.Instruction) {
 			mu, ok := in.(*ssa.MapUpdate)
 			if !ok || !isFieldOf(TermOf(mu.Map, nil), "window.CountingWindow", "keyedBuffer") {
 				return
@@ -232,4 +257,13 @@ func runC09(a *A) {
 		}
 	})
 	a.Rule("locks/guarded-by", 4, func() { a.lockRules("window", "CountingWindow") })
+}
+
+// scanHosts applies f to every instruction of g and of the same-package functions g calls (one level):
+// the per-row logic of a goroutine body may have been moved into a method.
+func scanHosts(a *A, g *ssa.Function, f func(ssa.Instruction)) {
+	allInstrs(g, f)
+	for _, h := range a.helpersOf(g) {
+		allInstrs(h, f)
+	}
 }
